@@ -121,7 +121,7 @@ def check(run):
     thorough = run.tier == "thorough"
     specs = systematic()
     r = gen.rng_for(run.seed, "c14")
-    for i in range(6000 if thorough else 1200):
+    for i in range(8000 if thorough else 2500):
         s = strgen.build(r, "R%d" % i, ["EnumMessage"], n=(45 if i in (5, 6) else r.choice([1, 2, 3, 4, 6, 9])), allow_default=False, allow_prefix=True, allow_default_with=False,
                          generics_pool=(None, None, "T", "a", "aT", "N", "TU", "Tw", "aTw", "I", "aI", "Tdef", "TwU"))
         gen.add_noise(r, s, skip=("message", "docs", "serialize", "serialize_all", "prefix"))
